@@ -1342,3 +1342,125 @@ func safeErrText(err error) (s string) {
 	}()
 	return err.Error()
 }
+
+// --------------------------------------------------------------- nested printers left by a panic (C01, C11)
+
+// npZ: a panic value whose own rendering panics (so that catchPanic re-raises).
+type npZ struct{ where string }
+
+func (z npZ) String() string {
+	if z.where == "String" {
+		panic("boom‹z")
+	}
+	return "z"
+}
+func (z npZ) Format(st fmt.State, verb rune) {
+	if z.where == "Format" {
+		panic(errors.New("fboom"))
+	}
+	fmt.Fprint(st, "Z")
+}
+
+type npZSafe struct{}
+
+func (npZSafe) SafeFormat(p redact.SafePrinter, _ rune) { p.SafeString("zs"); panic("sfboom") }
+
+// npY: panics with a payload.
+type npY struct{ pl interface{} }
+
+func (y npY) String() string { panic(y.pl) }
+
+// npX: a SafeFormatter that writes, prints operands through the nested printer, writes again.
+type npX struct {
+	pre, post int
+	printf    bool
+	args      []interface{}
+}
+
+func npWrite(p redact.SafePrinter, k int) {
+	switch k {
+	case 1:
+		p.UnsafeString("abcd")
+	case 2:
+		p.SafeString("safe")
+	case 3:
+		p.UnsafeString("ab\n")
+	case 4:
+		p.UnsafeString("")
+	}
+}
+
+func (x npX) SafeFormat(p redact.SafePrinter, _ rune) {
+	npWrite(p, x.pre)
+	if x.printf {
+		p.Printf("%v|%v", x.args...)
+	} else {
+		p.Print(x.args...)
+	}
+	npWrite(p, x.post)
+}
+
+func streamNestedPanics(rep *Report, tier string, seed uint64) {
+	RunStream(rep, "P-nested-panics", true, "SafeFormat methods that write {nothing, unsafe, safe, unsafe+LF, empty unsafe}, call Print/Printf on 4 operand lists containing a value that panics with a payload whose own rendering panics (String/Format/SafeFormat) or not, write again; 6 outer routes", false, 1,
+		func(sh, ns int, emit func(Case)) {
+			resetRegistry()
+			payloads := []interface{}{npZ{"String"}, npZ{"Format"}, npZSafe{}, npZ{"none"}, "plain", npY{npZ{"String"}}}
+			for _, pl := range payloads {
+				y := npY{pl}
+				argLists := [][]interface{}{{y}, {"ef", y}, {y, "gh"}, {[]interface{}{1, y}, "t"}}
+				for ai, al := range argLists {
+					for pre := 0; pre <= 4; pre++ {
+						for post := 0; post <= 2; post++ {
+							for _, pf := range []bool{false, true} {
+								x := npX{pre, post, pf, al}
+								for route := 0; route < 6; route++ {
+									var out []byte
+									pm := safely(func() {
+										switch route {
+										case 0:
+											out = []byte(redact.Sprint(x))
+										case 1:
+											out = []byte(redact.Sprintf("a %v b", x))
+										case 2:
+											out = []byte(redact.Sprint([]interface{}{x, 1}))
+										case 3:
+											out = []byte(redact.Sprintfn(func(w redact.SafePrinter) { w.Print("o", x) }))
+										case 4:
+											var sb redact.StringBuilder
+											sb.UnsafeString("u")
+											sb.Print(x)
+											out = []byte(sb.RedactableString())
+										case 5:
+											out = []byte(redact.Sprint(npX{1, 1, false, []interface{}{x}}))
+										}
+									})
+									var orc []string
+									if pm != "" {
+										orc = append(orc, "C11:a panic raised inside a nested printer escaped the print call: "+pm)
+									} else {
+										if e := wflErr(out); e != "" {
+											orc = append(orc, wfTag(e)+"output after a panic left a nested printer is not well-formed: "+e+fmt.Sprintf(" %q", out))
+										}
+										if !bytes.Contains(out, []byte("PANIC=")) {
+											orc = append(orc, fmt.Sprintf("C11:panic report missing: %q", out))
+										}
+										st := stripOnce(out)
+										if pre == 1 && !bytes.Contains(st, []byte("abcd")) {
+											orc = append(orc, fmt.Sprintf("C11:text written before the nested print was lost: %q", out))
+										}
+										if pre == 2 && !bytes.Contains(dropEnvs(out), []byte("safe")) {
+											orc = append(orc, fmt.Sprintf("C11:safe text written before the nested print was lost: %q", out))
+										}
+										if bytes.Contains(dropEnvs(out), []byte("abcd")) || bytes.Contains(dropEnvs(out), []byte("boom")) {
+											orc = append(orc, fmt.Sprintf("C05:unsafe text outside envelopes: %q", out))
+										}
+									}
+									emit(Case{Real: fmt.Sprintf("payload#%T args#%d pre=%d post=%d printf=%v route=%d => %q", pl, ai, pre, post, pf, route, out), Oracle: orc, Nontriv: true, Kind: fmt.Sprintf("route%d", route)})
+								}
+							}
+						}
+					}
+				}
+			}
+		})
+}
